@@ -475,6 +475,11 @@ def weave_fn(text, directives, canary=False):
             add(toks[sh.fn_k].start if not _has_vis(toks, sh.fn_k) else toks[_vis_start(toks, sh.fn_k)].start, d.arg.strip() + "\n", d, order=-5)
         else:
             raise Unsupported(f"unknown directive #{d.kind}")
+    # loops the contract file does not know (added later) must not be rejected by the front end for lacking a
+    # `decreases`; every loop that has a contract keeps its decreases clause and is still checked for termination
+    if sh.body_open is not None and not any(d.kind == "attr" and "exec_allows_no_decreases_clause" in d.arg for d in directives):
+        at = toks[sh.fn_k].start if not _has_vis(toks, sh.fn_k) else toks[_vis_start(toks, sh.fn_k)].start
+        add(at, "#[verifier::exec_allows_no_decreases_clause]\n", Directive("attr", "auto", 0), order=-6)
     if canary:
         # with loop_isolation(false) the loop body belongs to the same query as the function entry: an entry canary
         # would mask the loop canaries, and a reachable loop body implies a reachable entry
